@@ -300,6 +300,12 @@ func (p *wat2cWorker) findLabelIndex(label string) int {
 	panic(fmt.Sprintf("wat2c: unknown label %q", label))
 }
 
+// newAnonLabel names a block/loop/if that has no label in the source: `br 0` out of it needs a C label to jump to
+func (p *wat2cWorker) newAnonLabel() string {
+	p.anonLabelCount++
+	return fmt.Sprintf("wa.anon.%d", p.anonLabelCount)
+}
+
 func (p *wat2cWorker) enterLabelScope(stkBase int, label string, results []token.Token) {
 	p.scopeLabels = append(p.scopeLabels, label)
 	p.scopeStackBases = append(p.scopeStackBases, stkBase)
